@@ -157,10 +157,17 @@ func (l *c32LazyWAL) real() *wal.Writer {
 	}
 	return l.w
 }
-func (l *c32LazyWAL) Append(r []map[string]interface{}) error       { return l.real().Append(r) }
-func (l *c32LazyWAL) AppendRaw(p []byte) error                      { return l.real().AppendRaw(p) }
-func (l *c32LazyWAL) AppendRawWithMeta(db string, p []byte) error   { return l.real().AppendRawWithMeta(db, p) }
-func (l *c32LazyWAL) Stats() map[string]interface{}                 { return map[string]interface{}{} }
+func (l *c32LazyWAL) Append(r []map[string]interface{}) error { return l.real().Append(r) }
+func (l *c32LazyWAL) AppendRaw(p []byte) error                { return l.real().AppendRaw(p) }
+func (l *c32LazyWAL) AppendRawWithMeta(db string, p []byte) error {
+	return l.real().AppendRawWithMeta(db, p)
+}
+func (l *c32LazyWAL) Stats() map[string]interface{} { return map[string]interface{}{} }
+func (l *c32LazyWAL) untouched() bool {
+	l.mu.Lock()
+	defer l.mu.Unlock()
+	return l.w == nil
+}
 func (l *c32LazyWAL) Close() error {
 	l.mu.Lock()
 	defer l.mu.Unlock()
@@ -200,20 +207,27 @@ func c32NewWriter(walDir string) *c32Sys {
 	return s
 }
 
-// c32Places flushes nothing; it reads every stored object: "db/measurement" -> rows, plus raw paths.
-func c32Places(mem *hx.MemBackend) (map[string]int, error) {
-	out := map[string]int{}
+// c32Places reads every stored object: "db/measurement" (first two segments of the key AS STORED) ->
+// rows, and one key directory per place (the key minus its time-stamped file name).
+func c32Places(mem *hx.MemBackend) (map[string]int, map[string]string, error) {
+	out, dirs := map[string]int{}, map[string]string{}
 	paths, files := mem.Snapshot()
 	for _, p := range paths {
-		// place = the first two segments of the key AS STORED; a key that is absolute, empty-segmented or
-		// contains a traversal is marked so that it can never equal a granted "db/measurement"
+		// a key that is absolute, has an empty segment or contains a traversal is marked so that it can
+		// never equal a granted "db/measurement"
 		seg := strings.SplitN(p, "/", 3)
 		place := p
 		if len(seg) >= 2 {
 			place = seg[0] + "/" + seg[1]
 		}
-		if path.Clean("/"+p)[1:] != p {
+		if path.Clean("/" + p)[1:] != p {
 			place += " [non-canonical key]"
+		}
+		if _, ok := dirs[place]; !ok {
+			dirs[place] = path.Dir(p)
+			if i := strings.LastIndex(p, "/"); i >= 0 {
+				dirs[place] = p[:i]
+			}
 		}
 		if !strings.HasSuffix(p, ".parquet") {
 			out[place] += 0
@@ -221,11 +235,11 @@ func c32Places(mem *hx.MemBackend) (map[string]int, error) {
 		}
 		rows, _, _, err := hx.ReadParquet(files[p])
 		if err != nil {
-			return nil, fmt.Errorf("%s: %w", p, err)
+			return nil, nil, fmt.Errorf("%s: %w", p, err)
 		}
 		out[place] += len(rows)
 	}
-	return out, nil
+	return out, dirs, nil
 }
 
 // ---- minimal msgpack encoder with ORDERED maps (deterministic bytes, duplicate keys possible) ----
@@ -520,10 +534,10 @@ func (i c32Inj) isGenuineKey() bool {
 }
 
 type c32Vec struct {
-	EP, Tmpl          int
-	Inj               c32Inj
-	Hdr, QDB, Org     int
-	Prec, MeasSel     int
+	EP, Tmpl      int
+	Inj           c32Inj
+	Hdr, QDB, Org int
+	Prec, MeasSel int
 }
 
 func (v c32Vec) ep() c32EP { return c32EPs[v.EP] }
@@ -803,6 +817,7 @@ type c32Res struct {
 	Asks     []c32Ask
 	Granted  map[string]bool // "db/measurement" for which a write check was asked AND granted
 	Legs     [3]map[string]int
+	Dirs     [3]map[string]string
 	NEntries int
 }
 
@@ -823,11 +838,19 @@ func c32Run(v c32Vec) *c32Res {
 	return res
 }
 
+// c32Free holds writer systems that have neither buffered, logged nor stored anything yet (a request
+// that was rejected without side effects leaves its system in that state); everything else is built fresh.
+var c32Free = make(chan *c32Sys, 256)
+
 func c32Exec(v c32Vec) *c32Res {
-	c32Sysruns.Add(1)
-	dir := filepath.Join(c32Scratch, fmt.Sprintf("w%d", c32Dirs.Add(1)))
-	defer os.RemoveAll(dir)
-	w := c32NewWriter(dir)
+	var w *c32Sys
+	select {
+	case w = <-c32Free:
+	default:
+		c32Sysruns.Add(1)
+		w = c32NewWriter(filepath.Join(c32Scratch, fmt.Sprintf("w%d", c32Dirs.Add(1))))
+	}
+	dir := w.walW.dir
 	rq := c32Build(v)
 	hr := httptest.NewRequest("POST", rq.URL, bytes.NewReader(rq.Body))
 	hr.Header.Set("Content-Type", rq.CT)
@@ -846,10 +869,9 @@ func c32Exec(v c32Vec) *c32Res {
 	if err := w.buf.FlushAll(context.Background()); err != nil {
 		ev.Unbound("C32: FlushAll(writer): " + err.Error())
 	}
-	w.buf.Close()
-	w.walW.Close()
 	w.rec.mu.Lock()
 	res.Asks = append(res.Asks, w.rec.asks...)
+	w.rec.asks = nil
 	w.rec.mu.Unlock()
 	sort.Slice(res.Asks, func(i, j int) bool {
 		a, b := res.Asks[i], res.Asks[j]
@@ -860,14 +882,26 @@ func c32Exec(v c32Vec) *c32Res {
 			res.Granted[a.DB+"/"+a.Meas] = true
 		}
 	}
-	if res.Legs[0], err = c32Places(w.mem); err != nil {
+	if res.Legs[0], res.Dirs[0], err = c32Places(w.mem); err != nil {
 		ev.Unbound("C32: reading the writer's store: " + err.Error())
 	}
+	res.Legs[1], res.Legs[2] = map[string]int{}, map[string]int{}
+	if stored, _ := w.mem.Snapshot(); w.walW.untouched() && len(stored) == 0 {
+		// nothing buffered, logged or stored: the system is as new
+		select {
+		case c32Free <- w:
+		default:
+			w.buf.Close()
+		}
+		return res
+	}
+	w.buf.Close()
+	w.walW.Close()
+	defer os.RemoveAll(dir)
 	w.mu.Lock()
 	entries := w.entries
 	w.mu.Unlock()
 	res.NEntries = len(entries)
-	res.Legs[1], res.Legs[2] = map[string]int{}, map[string]int{}
 	if len(entries) == 0 {
 		return res
 	}
@@ -881,7 +915,7 @@ func c32Exec(v c32Vec) *c32Res {
 	ap.Close()
 	rd.buf.FlushAll(context.Background())
 	rd.buf.Close()
-	if res.Legs[1], err = c32Places(rd.mem); err != nil {
+	if res.Legs[1], res.Dirs[1], err = c32Places(rd.mem); err != nil {
 		ev.Unbound("C32: reading the reader's store: " + err.Error())
 	}
 	// wal-replay leg: a restarted node recovers the WAL directory with the real callbacks
@@ -891,7 +925,7 @@ func c32Exec(v c32Vec) *c32Res {
 		&wal.RecoveryOptions{ColumnarCallback: createColumnarRecoveryCallback(rp.buf, lg)})
 	rp.buf.FlushAll(context.Background())
 	rp.buf.Close()
-	if res.Legs[2], err = c32Places(rp.mem); err != nil {
+	if res.Legs[2], res.Dirs[2], err = c32Places(rp.mem); err != nil {
 		ev.Unbound("C32: reading the recovered store: " + err.Error())
 	}
 	return res
@@ -909,7 +943,7 @@ type c32Fail struct {
 // c32Cat classifies a stored place relative to the request (database: named / default / empty / other;
 // measurement: the granted m1 / empty / other), so that minimisation cannot slide from one way of
 // landing in the wrong place to another.
-func c32Cat(named, place string) string {
+func c32Cat(named, place, dir string, inj c32Inj) string {
 	nc := strings.HasSuffix(place, " [non-canonical key]")
 	place = strings.TrimSuffix(place, " [non-canonical key]")
 	db, meas := place, ""
@@ -927,10 +961,12 @@ func c32Cat(named, place string) string {
 	default:
 		d = "other"
 	}
-	switch meas {
-	case "":
+	switch {
+	case inj.Name != "" && strings.HasPrefix(dir+"/", db+"/"+inj.Val+"/"):
+		m = "value-of-the-routing-like-name"
+	case meas == "":
 		m = "empty"
-	case c32Meas:
+	case meas == c32Meas:
 		m = c32Meas
 	default:
 		m = "other"
@@ -962,7 +998,7 @@ func c32Judge(v c32Vec, res *c32Res) []c32Fail {
 			if i := strings.Index(p, "/"); i >= 0 {
 				db = p[:i]
 			}
-			cat := c32Cat(named, p)
+			cat := c32Cat(named, p, res.Dirs[leg][p], v.Inj)
 			switch {
 			case named == "" || db != named:
 				out = append(out, c32Fail{"stored-under-database-the-request-did-not-name", leg, p, cat})
@@ -1003,8 +1039,7 @@ func c32Valid(v c32Vec, tier c32Tier) bool {
 }
 
 // c32Minimise: coordinate descent to the least (simplest-first order) member of the space that still
-// shows the same oracle failure on the same leg. The routing-like name keeps its (name, position);
-// only its value is canonicalised, or the name is dropped altogether.
+// shows the same oracle failure (kind, leg, category of the place the rows went to).
 func c32Minimise(v c32Vec, kind string, leg int, cat string, tier c32Tier) c32Vec {
 	fails := func(c c32Vec) bool {
 		if !c32Valid(c, tier) {
@@ -1024,20 +1059,16 @@ func c32Minimise(v c32Vec, kind string, leg int, cat string, tier c32Tier) c32Ve
 			}
 			return false
 		}
-		// 1. drop the routing-like name, else the least value
+		// 1. drop the routing-like name, else the least (position, name, value) of the template's list
 		if cur.Inj.Name != "" {
-			c := cur
-			c.Inj = c32Inj{}
-			if !try(c) {
-				for _, val := range c32Vals[:tier.nVals] {
-					if val == cur.Inj.Val {
-						break
-					}
-					c = cur
-					c.Inj.Val = val
-					if try(c) {
-						break
-					}
+			for _, inj := range c32InjList(cur.ep(), cur.Tmpl, tier) {
+				if inj == cur.Inj {
+					break
+				}
+				c := cur
+				c.Inj = inj
+				if try(c) {
+					break
 				}
 			}
 		}
@@ -1121,6 +1152,11 @@ func verifC32() {
 	tier := c32Tier{nVals: 6, nHdr: 3, nPrec: 2}
 	if !run.Quick() {
 		tier = c32Tier{nVals: len(c32Vals), nHdr: len(c32Hdr), nPrec: len(c32PrecV)}
+	}
+	if pr := os.Getenv("C32_PROBE"); pr != "" {
+		c32Probe(pr)
+		os.RemoveAll(c32Scratch)
+		os.Exit(0)
 	}
 	cases := c32Enumerate(tier)
 	if run.Seed != 0 { // the seed only permutes the order in which the (whole) space is visited
@@ -1340,4 +1376,40 @@ func c32Printable(b []byte) string {
 		}
 	}
 	return s.String()
+}
+
+// c32Probe (debugging aid, env C32_PROBE="endpoint:tmpl:hdr:qdb:org:prec:meassel[:name:pos:val];..."):
+// runs single vectors and prints what was observed.
+func c32Probe(spec string) {
+	for _, one := range strings.Split(spec, ";") {
+		f := strings.Split(one, ":")
+		if len(f) < 7 {
+			fmt.Println("bad probe", one)
+			continue
+		}
+		var v c32Vec
+		v.EP = -1
+		for i, e := range c32EPs {
+			if e.Name == f[0] {
+				v.EP = i
+			}
+		}
+		if v.EP < 0 {
+			fmt.Println("unknown endpoint", f[0])
+			continue
+		}
+		fmt.Sscan(f[1], &v.Tmpl)
+		fmt.Sscan(f[2], &v.Hdr)
+		fmt.Sscan(f[3], &v.QDB)
+		fmt.Sscan(f[4], &v.Org)
+		fmt.Sscan(f[5], &v.Prec)
+		fmt.Sscan(f[6], &v.MeasSel)
+		if len(f) >= 10 {
+			v.Inj = c32Inj{f[7], f[8], f[9]}
+		}
+		r := c32Run(v)
+		rq := c32Build(v)
+		fmt.Printf("PROBE %s | %s\n  url=%s hdr=%v\n  body=%s\n  status=%d response=%s\n  checks=%v\n  live=%s replicated=%s wal-replay=%s entries=%d\n  fails=%+v\n",
+			v.ep().Name, v, rq.URL, rq.Hdr, c32Printable(rq.Body), r.Status, strings.TrimSpace(r.Body), c32Asks(r.Asks), c32Fmt(r.Legs[0]), c32Fmt(r.Legs[1]), c32Fmt(r.Legs[2]), r.NEntries, c32Judge(v, r))
+	}
 }
